@@ -670,6 +670,20 @@ def opSeed (args : List String) : String :=
     | _, _ => "bad-op"
   | _ => "bad-op"
 
+/-- `scored <key> <T_min> <T_max> <n raw> <raw...> <T...>`: what the objective scored, per temperature -/
+def opScored (args : List String) : String :=
+  match args with
+  | k :: tmin :: tmax :: n :: rest =>
+    match parseKey k, parseFloat tmin, parseFloat tmax, n.toNat?, rest.mapM parseFloat with
+    | some k, some tmin, some tmax, some n, some xs =>
+      let raw := xs.take n
+      "ok " ++ " ".intercalate ((xs.drop n).map fun t =>
+        match Model.Refine.scored k raw tmin tmax t with
+        | some v => showFloat v
+        | none => "err")
+    | _, _, _, _, _ => "bad-op"
+  | _ => "bad-op"
+
 def step (line : String) : String :=
   match words line with
   | "submodel" :: args => opPredictSubmodel args
@@ -679,6 +693,7 @@ def step (line : String) : String :=
   | "fix" :: args => opFix args
   | "smooth" :: args => opSmooth args
   | "refine" :: args => opRefine args
+  | "scored" :: args => opScored args
   | "resample" :: args => opResample args
   | "tempagg" :: args => opTempAgg args
   | "suff" :: args => opSuff args
